@@ -212,6 +212,9 @@ pub fn label_config(cfg: &BuilderConfig, o: &mut Outcome) {
     if cfg.force_large {
         o.label("forced-large-file-format");
     }
+    if cfg.reuse_source {
+        o.label("one-source-path-rewritten");
+    }
 }
 
 impl Property for C06 {
@@ -237,7 +240,7 @@ impl Property for C06 {
             name: "configurations",
             cases: tier.pick(4_000, 80_000),
             strat: Arc::new(|| {
-                config_any(CfgParams { max_files: 8, sizes: size_small(), comp: comp_mixed(), sign_prob: 0.15, file_kinds: true, force_large_prob: 0.0, rich_meta: true })
+                config_any_reuse(CfgParams { max_files: 8, sizes: size_small(), comp: comp_mixed(), sign_prob: 0.15, file_kinds: true, force_large_prob: 0.0, rich_meta: true })
                     .prop_map(|mut c| {
                         // the protected RSA key is slow; keep it rare
                         if c.signer == Some(1) && c.files.len() % 4 != 0 {
